@@ -163,13 +163,22 @@ KNOWN_TRIGGERS = {
 }
 
 
+_ACTIVE = None
+
+
 def active_triggers():
-    if os.environ.get('C13_NO_EXCLUDE'):
-        return []
-    names = set(UNREPAIRED)
-    for k in known_for(ID):
-        names.add(k.get('trigger'))
-    return sorted(n for n in names if n in KNOWN_TRIGGERS)
+    """names of the trigger regions kept out of the search: UNREPAIRED plus the entries of known_findings.json;
+    C13_NO_EXCLUDE=1 switches the exclusion off (used to show that a repaired tree passes inside the regions)"""
+    global _ACTIVE
+    if _ACTIVE is None:
+        if os.environ.get('C13_NO_EXCLUDE'):
+            _ACTIVE = []
+        else:
+            names = set(UNREPAIRED)
+            for k in known_for(ID):
+                names.add(k.get('trigger'))
+            _ACTIVE = sorted(n for n in names if n in KNOWN_TRIGGERS)
+    return _ACTIVE
 
 
 def exclude(spec):
